@@ -396,11 +396,16 @@ pub fn fax_decode(data: &[u8], params: &CCITTFaxDecodeParams) -> Result<Vec<u8>>
     use fax::{Color, decoder::{pels, decode_g4}};
 
     if params.k < 0 {
+        // the decoder works on u16 geometry: anything else cannot be decoded (and must not size a buffer)
+        if !(1 ..= u16::MAX as _).contains(&params.columns) || !(0 ..= u16::MAX as _).contains(&params.rows) {
+            bail!("invalid fax geometry: {} columns, {} rows", params.columns, params.rows);
+        }
         let columns = params.columns as usize;
         let rows = params.rows as usize;
 
         let height = if params.rows == 0 { None } else { Some(params.rows as u16)};
-        let mut buf = Vec::with_capacity(columns * rows);
+        // rows is a claim of the file: reserve for it only within reason, the buffer grows with the decoded lines
+        let mut buf = Vec::with_capacity((columns * rows).min(1 << 24));
         decode_g4(data.iter().cloned(), columns as u16, height, |line| {
             buf.extend(pels(line, columns as u16).map(|c| match c {
                 Color::Black => 0,
